@@ -1,8 +1,9 @@
-/* C20: reproduction of the signed-counter overflow in quote.c doit() (theorem C20_quote_int_overflow).
- * An address of 2^30 bytes that all need a backslash passes both overflow checks (2*len+2 < 2^32), is given
- * 2^31+2 bytes, and `int j` is incremented beyond INT_MAX at quote.c `saout->s[j++] = ch`.  Needs about 3.5 GiB.
- * Prints "OVERFLOW-REPRODUCED" lines from UBSan on stderr ("runtime error: signed integer overflow") or
- * "quote returned r len" when the code is repaired.  Run only in the thorough tier, informational. */
+/* C20: quote() at the top of its length range (theorems C20_quote_doit_sound / C20_quote_int_overflow_pre_26e354b).
+ * An address of 2^30 bytes that all need a backslash passes both overflow checks (2*len+2 < 2^32) and is given
+ * 2^31+2 bytes.  With unsigned counters (26e354b) quote() must return 1 with len = a = 2147483650 and the expected
+ * content; with the signed counters of the code before it UBSan reports "signed integer overflow" at quote.c
+ * `saout->s[j++]`.  Needs about 3.5 GiB.  Run in the thorough tier and whenever a proof obligation of C20 is broken.
+ * output: BIG quote <inlen> x <byte> : <ret> <len> <a> <content-ok>      (sanitizer reports go to stderr) */
 #include <stdio.h>
 #include <stdlib.h>
 #include <string.h>
@@ -11,9 +12,11 @@
 int main(void) {
   stralloc in = {0}, out = {0};
   unsigned int n = 1073741824u;
-  in.s = malloc(n); if (!in.s) { puts("nomem"); return 2; }
+  in.s = malloc(n); if (!in.s) { puts("BIG nomem"); return 2; }
   memset(in.s, '"', n); in.len = n; in.a = n;
   int r = quote(&out, &in);
-  printf("quote returned %d out.len=%u out.a=%u\n", r, out.len, out.a);
+  int ok = r == 1 && out.len == 2u * n + 2 && out.s[0] == '"' && out.s[out.len - 1] == '"';
+  if (ok) for (unsigned int k = 1; k + 1 < out.len; k += 2) if (out.s[k] != '\\' || out.s[k + 1] != '"') { ok = 0; break; }
+  printf("BIG quote %u x 22 : %d %u %u %d\n", n, r, out.len, out.a, ok);
   return 0;
 }
